@@ -230,6 +230,12 @@ func runC18(res *Result, tier string, seed int64, replay string) {
 			"<mjml><mj-head><mj-title><![CDATA[a < b]]></mj-title></mj-head><mj-body><mj-section><mj-column><mj-text>t</mj-text></mj-column></mj-section></mj-body></mjml>"},
 	)
 	base := wrap(`<mj-text>T</mj-text><mj-image src="x.png" alt="a &amp; b"/>`)
+	// comments whose body begins or ends with the characters of the comment delimiters themselves (all well-formed XML)
+	for _, body := range trickyCommentBodies {
+		pre := "<!--" + body + "-->"
+		pairs = append(pairs, pair{"prolog-comment:" + fmt.Sprintf("%q", body), pre + "\n" + base, base})
+		pairs = append(pairs, pair{"prolog-comment:" + fmt.Sprintf("%q", body), "<!-- a -->" + pre + "<!-- b -->" + base, base})
+	}
 	for _, pre := range []string{"<!-- c -->", "\n\n  \n", "\xef\xbb\xbf", `<?xml version="1.0" encoding="UTF-8"?>` + "\n", "<!DOCTYPE mjml>\n", "\xef\xbb\xbf<?xml version=\"1.0\"?>\n<!-- c1 -->\n\n<!-- c2 -->\n"} {
 		pairs = append(pairs, pair{"prolog:" + fmt.Sprintf("%q", short(pre, 14)), pre + base, base})
 	}
@@ -271,6 +277,9 @@ func runC18(res *Result, tier string, seed int64, replay string) {
 	hostile := []string{"", "&", "&&", "a=\"&\"", "<a b=\"&#x1F600; &#128512; &#x00000E9; &#00000000065; &hellip; &divide; &abcdefghij; &#xabcdefg;\">", "<a b=\"x&y;z\" c='&amp;&lt;&bogus;&#12;&#x1f;&#;&#x;'>&copy;&nbsp;&#160;&#xA0;</a>", "<!-- <mjml> --> <MJML>", "<!--unterminated <mjml>",
 		"  \r\n\t<mjml>", "<!-- a --><!-- b -->x<!-- c --> <mjml a='\"&'>", "]]>", "a]]>b]]]>c]]", "<mjml", "<mjm", "<!---->", "<!--->", "\xff\xfe<mjml>", "<a 'q\"&x' \"r'&y\">"}
 	texts = append(texts, hostile...)
+	for _, body := range trickyCommentBodies {
+		texts = append(texts, "<!--"+body+"--><mjml><mj-body></mj-body></mjml>", "<!-- a --><!--"+body+"-->\n<mjml a=\"b\">", "<!--"+body+"--><!--"+body+"--><mjml/>")
+	}
 	for i := 0; i < 300; i++ {
 		r := NewRng(seed, fmt.Sprintf("c18/m/%d", i))
 		texts = append(texts, mutateBytes(r, texts[r.Intn(len(texts))]))
@@ -308,5 +317,8 @@ func runC18(res *Result, tier string, seed int64, replay string) {
 	})
 	_ = mjml.Render
 }
+
+// bodies of well-formed XML comments that overlap the delimiters when scanned carelessly
+var trickyCommentBodies = []string{">", "->", "> note ", "-> note ", "<", "<!", "<!-", " <!-- ", "<mjml>", " <mjml> </mjml> ", "-", " - ", "- -", "]]>", "&", "'", "\"", "?>", "<?xml?>", "", " ", ">-", ">->"}
 
 func init() { register("C18", runC18) }
